@@ -44,6 +44,8 @@ class SharedModel:
         self.sites: List[Site] = []
         self.locked_regions: Dict[str, List[ast.With]] = {}
         self.bad_lock_exprs: List[Tuple[FuncInfo, ast.With, str]] = []
+        # `L.acquire(timeout=..)` / `L.acquire(False)` whose result is not looked at: the lock may not be held afterwards
+        self.unchecked_acquires: List[Tuple[FuncInfo, ast.stmt, str]] = []
         self._lock_aliases: Dict[str, set] = {}
         self.dynamic_lock_exprs: List[Tuple[FuncInfo, ast.With, str, bool]] = []
         for fi in self.funcs:
@@ -215,8 +217,18 @@ class SharedModel:
                 lst = getattr(parent, field, None)
                 if not isinstance(lst, list):
                     continue
+                for a in lst:
+                    # an acquisition that can fail (non-blocking or with a timeout) used as a statement: nobody looks at the result
+                    if isinstance(a, ast.Expr) and isinstance(a.value, ast.Call) and isinstance(a.value.func, ast.Attribute) and a.value.func.attr == "acquire" and is_lock(a.value.func.value) is True:
+                        call = a.value
+                        blocking_only = all(isinstance(x, ast.Constant) and x.value is True for x in call.args[:1]) and len(call.args) <= 1 \
+                            and all(k.arg == "blocking" and isinstance(k.value, ast.Constant) and k.value.value is True for k in call.keywords)
+                        if not blocking_only:
+                            self.unchecked_acquires.append((fi, a, unparse(call)))
                 for a, b in zip(lst, lst[1:]):
-                    if isinstance(a, ast.Expr) and isinstance(a.value, ast.Call) and isinstance(a.value.func, ast.Attribute) and a.value.func.attr == "acquire" and not a.value.args \
+                    if isinstance(a, ast.Expr) and isinstance(a.value, ast.Call) and isinstance(a.value.func, ast.Attribute) and a.value.func.attr == "acquire" \
+                            and all(isinstance(x, ast.Constant) and x.value is True for x in a.value.args) and len(a.value.args) <= 1 \
+                            and all(k.arg == "blocking" and isinstance(k.value, ast.Constant) and k.value.value is True for k in a.value.keywords) \
                             and is_lock(a.value.func.value) is True and isinstance(b, ast.Try) and not b.handlers and b.finalbody:
                         rel = b.finalbody[0]
                         if isinstance(rel, ast.Expr) and isinstance(rel.value, ast.Call) and isinstance(rel.value.func, ast.Attribute) and rel.value.func.attr == "release" \
